@@ -66,6 +66,12 @@ def judge(ln):
     rest = R[off + 12:]
     if rest and rest[0] == 'some':
         X = tuple(to_float(t) for t in rest[1:4])
+        if P.kind == 'tri' and finite(O, D):
+            # a ray grazing the triangle's plane (|cos| < 1e-6 to the normal): Moller-Trumbore's determinant is rounding noise and
+            # the reported point is ill-conditioned; C02 treats such rays as its grazing band, so does this check
+            a, b, c = P.p['a'], P.p['b'], P.p['c']
+            nrm = cross(vsub(b, a), vsub(c, a))
+            if norm(nrm) == 0 or norm(D) == 0 or abs(dot(nrm, D)) < 1e-6 * norm(nrm) * norm(D): return ('skip', 'grazing-band')
         if finite(X) and finite(O, D) and norm(O) < 1e9:
             if not inside(wb, X, tol * 10 + 8 * 2.0**-52 * norm(X)): return ('fail', 'world-bounds-lose-hit:' + P.kind, 'reported hit outside world bounds')
     return ('ok', '')
